@@ -396,7 +396,7 @@ static void runOne(const CaseLP& L, const std::vector<std::string>& t)
       SP s;
       quiet(s);
       bool ok = true;
-      std::string mode = "solve", brows, bcols, chg;
+      std::string mode = "solve", brows, bcols, chg, addc, addr;
 
       for(size_t k = 2; k < t.size(); k++)
       {
@@ -404,6 +404,8 @@ static void runOne(const CaseLP& L, const std::vector<std::string>& t)
          else if(t[k].compare(0, 6, "brows=") == 0) brows = t[k].substr(6);
          else if(t[k].compare(0, 6, "bcols=") == 0) bcols = t[k].substr(6);
          else if(t[k].compare(0, 4, "chg=") == 0) chg = t[k].substr(4);
+         else if(t[k].compare(0, 5, "addc=") == 0) addc = t[k].substr(5);
+         else if(t[k].compare(0, 5, "addr=") == 0) addr = t[k].substr(5);
          else ok = setParam(s, t[k]) && ok;
       }
 
@@ -456,6 +458,79 @@ static void runOne(const CaseLP& L, const std::vector<std::string>& t)
 
             if(!found)
                L2.rows[i].push_back({j, v});
+         }
+      }
+
+      // a column / a row added between the solve / setBasis and the queries (no re-solve): addc=obj:lo:up:i:v:i:v...  addr=lhs:rhs:j:v:j:v...
+      auto fields = [](const std::string& str)
+      {
+         std::vector<std::string> f;
+         std::string cur;
+
+         for(char ch : str)
+         {
+            if(ch == ':')
+            {
+               f.push_back(cur);
+               cur.clear();
+            }
+            else
+               cur += ch;
+         }
+
+         f.push_back(cur);
+         return f;
+      };
+
+      if(!addc.empty())
+      {
+         auto f = fields(addc);
+
+         if(f.size() >= 3)
+         {
+            DSVectorBase<double> v;
+            int nj = s.numCols();
+            L2.obj.push_back(f[0]);
+            L2.lo.push_back(f[1]);
+            L2.up.push_back(f[2]);
+
+            for(size_t q = 3; q + 1 < f.size(); q += 2)
+            {
+               int i = atoi(f[q].c_str());
+
+               if(i < 0 || i >= s.numRows()) continue;
+
+               v.add(i, num(f[q + 1]));
+               L2.rows[i].push_back({nj, f[q + 1]});
+            }
+
+            s.addColReal(LPColBase<double>(num(f[0]), v, num(f[2]), num(f[1])));
+         }
+      }
+
+      if(!addr.empty())
+      {
+         auto f = fields(addr);
+
+         if(f.size() >= 2)
+         {
+            DSVectorBase<double> v;
+            std::vector<std::pair<int, std::string>> row;
+            L2.lhs.push_back(f[0]);
+            L2.rhs.push_back(f[1]);
+
+            for(size_t q = 2; q + 1 < f.size(); q += 2)
+            {
+               int j = atoi(f[q].c_str());
+
+               if(j < 0 || j >= s.numCols()) continue;
+
+               v.add(j, num(f[q + 1]));
+               row.push_back({j, f[q + 1]});
+            }
+
+            L2.rows.push_back(row);
+            s.addRowReal(LPRowBase<double>(num(f[0]), v, num(f[1])));
          }
       }
 
